@@ -24,7 +24,7 @@ from lib import tlc
 from lib.units import Inconclusive, McUnit, SeqUnit, Unit, run_h
 
 SUB = "wire"
-PAR = 12
+PAR = 6          # TLC processes at a time per unit (the units of a wave run concurrently)
 ALPHABET = "{0, 1, 2, 255}"
 
 
@@ -55,7 +55,7 @@ def tlc_rows(ctx, jobs, tags, timeout=900, heap="2g"):
     return rows
 
 
-def judge_records(ctx, module, path, consts="", parts=PAR, timeout=900):
+def judge_records(ctx, module, path, consts="", parts=3, timeout=900):
     """TLC (module <module>, INIT TInit / NEXT TNext / POSTCONDITION Accepted) judges every line of the NDJSON
     file; returns (n_records, [(record, want)], states)"""
     sd = ctx.spec(SUB)
@@ -272,11 +272,9 @@ def stream_gen_cfg(L, what, kinds, widths=(0, 1, 2, 3, 4, 5, 8, 32)):
 
 def stream_gen(ctx):
     jobs = [("stream.rt", "StreamGen", stream_gen_cfg(6, "rt", STREAM_KINDS))]
-    for k in STREAM_KINDS:
-        if k in ("BytesSz", "ObjSz", "Coll", "Peek"):
-            jobs += [("stream.tot.%s%d" % (k, w), "StreamGen", stream_gen_cfg(6, "tot", [k], [w])) for w in (1, 2, 4, 8)]
-        else:
-            jobs.append(("stream.tot." + k, "StreamGen", stream_gen_cfg(6, "tot", [k])))
+    jobs.append(("stream.tot.fixed", "StreamGen", stream_gen_cfg(6, "tot", ["Num", "Bool", "Bytes", "Obj"])))
+    for k in ("BytesSz", "ObjSz", "Coll", "Peek"):
+        jobs += [("stream.tot.%s%s" % (k, "".join(map(str, ws))), "StreamGen", stream_gen_cfg(6, "tot", [k], ws)) for ws in ((1, 2), (4, 8))]
     rows = tlc_rows(ctx, jobs, ["RT", "CHUNKS", "TOT"])
     return {"rt": rows["RT"] + rows["CHUNKS"], "tot": rows["TOT"]}
 
@@ -325,7 +323,7 @@ def stream_units():
 # ------------------------------------------------------------------------------------------ Deser
 
 DESER_CONSTS = "CONSTANTS\n Mode = \"total\"\n L = %d\n Alphabet = %s\n Discipline = \"checked\"\n"
-DESER_PARTS = 14
+DESER_PARTS = 8
 DESER_READER = {"Num": "ReadNum", "Bool": "ReadBool", "Byte": "ReadByte", "Bytes": "ReadBytes", "InPlace": "ReadBytesInPlace",
                 "VarBytes": "ReadVariableByteSlice", "String": "ReadString", "U256": "ReadUint256", "Time": "ReadTime",
                 "PayLen": "ReadPayloadLength", "Skip": "Skip", "Prefix": "CheckTypePrefix", "Seq": "ReadSequenceOfObjects", "All": "ConsumedAll"}
@@ -396,7 +394,7 @@ def deser_units():
 
 # ------------------------------------------------------------------------------------------ WireJson
 
-JSON_PARTS = 14
+JSON_PARTS = 6
 
 
 def json_gen_cfg(what, part=0, parts=1):
